@@ -626,6 +626,7 @@ fn client_family(cx: &mut Ctx, st: &mut Stats) {
         }
         let res = std::panic::catch_unwind(|| {
             let mut client = Client::new();
+            let _call = crate::report::enter(format!("Client: GET http://127.0.0.1/start following the redirect chain {:?}", chain).as_bytes());
             let r = client.get("http://127.0.0.1/start").map_err(|e| e.to_string()).and_then(|rq| rq.with_redirects(true).send().map_err(|e| e.to_string()));
             r.map(|r| (u16::from(r.status_code), r.body.clone(), r.headers.get("X-Final").map(|s| s.to_string())))
         });
